@@ -217,6 +217,56 @@ def rule_c(R, ctx):
     R.ob("C03.c", new, "zero-len-check", bool(lits), "Item::new tests len == 0 before building the item: %s" % [l.desc for l in lits][:2])
 
 
+def rule_g(R, ctx, rid="C03.g"):
+    Y = ctx.yrs
+    R.rule(rid, "R-PAIR the in-block offset of a BlockIter is consumed once: every arithmetic step that folds `BlockIter.rel` into a "
+                "clock or a length (split at id.clock + rel, len += rel, len -= rel) is followed on every path to the function's "
+                "return by a write of `rel` (reset or new value) — a stale offset is re-applied to the next block, which deletes or "
+                "reads elements elsewhere in the sequence")
+    n = 0
+    for p, fn in sorted(Y.fns.items()):
+        if not p.startswith("yrs::block_iter::BlockIter::") or not fn.mir:
+            continue
+        cfg = fn.cfg()
+        ws = {bi for bi, bj, bs in fn.field_writes("BlockIter.rel")}
+        rets = {bb for bb, b in enumerate(fn.blocks) if "ret" in b["t"] and not b.get("cleanup")}
+        k = 0
+        for i, j, st in fn.stmts():
+            rv = st["rv"]
+            if rv.get("bin", "").replace("WithOverflow", "") not in ("Add", "Sub"):
+                continue
+            hit = False
+            for x in ("a", "b"):
+                r = mir_root(fn, rv[x])
+                if r[0] == "place" and '"yrs::block_iter::BlockIter.rel"' in r[1]:
+                    hit = True
+            if not hit:
+                continue
+            n += 1
+            ok = i in ws
+            if not ok:
+                seen = {i}
+                stack = [i]
+                escaped = False
+                while stack and not escaped:
+                    b = stack.pop()
+                    for nx in fn.succ(b):
+                        if nx in seen or fn.blocks[nx].get("cleanup") or nx in ws:
+                            continue
+                        if nx in rets:
+                            escaped = True
+                            break
+                        seen.add(nx)
+                        stack.append(nx)
+                ok = not escaped
+            R.ob(rid, fn, "uses-rel#%d:%s" % (k, rv["bin"].replace("WithOverflow", "")), ok,
+                 "rel is rewritten on every path after it was folded in" if ok else
+                 "`rel` is folded into a clock/length here but a path reaches the return without rewriting it: the stale offset is "
+                 "applied again to the next block", "%s:%s" % (fn.file, st["line"]))
+            k += 1
+    R.floor(rid, "arithmetic uses of BlockIter.rel", n, 5)
+
+
 def check(ctx, R):
     R.run("C03.a", rule_a, ctx)
     R.run("C03.b", rule_b, ctx)
@@ -225,4 +275,5 @@ def check(ctx, R):
     R.run("C17.a", c17.rule_a, ctx, "C03.d")
     R.run("C03.e", c17.rule_c, ctx, "C03.e")
     R.run("C03.f", c17.rule_d, ctx, "C03.f")
+    R.run("C03.g", rule_g, ctx)
     return {}
